@@ -85,6 +85,7 @@ func main() {
 		scanPackage(p, short, facts)
 	}
 	extractTables(pkgs, facts)
+	extractLoops(pkgs, facts, *leanDir) // loops.go, skelana.go (C02: progress skeletons, contracts, loop inventory)
 	extractSites(pkgs, facts, *leanDir) // panicsites.go, nilreturns.go (C01/C03 inventories)
 	sortSites(facts)
 	if *jsonOut != "" {
